@@ -128,12 +128,14 @@ theorem broadcast_wf {N : Nat} {xs : List (Nat ⊕ List Nat)} {ts : List (List N
       · cases h
 
 /-- **what the standard guarantees about one flat operation** on an `N`-qubit register -/
+def CondWf (c : Option Cond) : Prop := condUnsat c = true ∨ cvBad (ccOf c) (cvOf c) = false
+
 def FlatWf (N : Nat) : FlatOp → Prop
-  | .U c _ _ _ q => q < N ∧ cvBad (ccOf c) (cvOf c) = false
-  | .CX c a b => a < N ∧ b < N ∧ a ≠ b ∧ cvBad (ccOf c) (cvOf c) = false
+  | .U c _ _ _ q => q < N ∧ CondWf c
+  | .CX c a b => a < N ∧ b < N ∧ a ≠ b ∧ CondWf c
   | .call c n ps t =>
     (∃ d, qelib1.reverse.find? (fun x => x.name == n) = some d ∧ t.length = d.qargs.length ∧
-      ps.length = d.params.length) ∧ t.Nodup ∧ (∀ q ∈ t, q < N) ∧ cvBad (ccOf c) (cvOf c) = false
+      ps.length = d.params.length) ∧ t.Nodup ∧ (∀ q ∈ t, q < N) ∧ CondWf c
   | .measure c _ _ => c = none
   | .barrier _ => True
 
@@ -141,7 +143,7 @@ theorem flattenQOp_wf {env : Env} (hg : env.gates = qelib1.reverse) (hq : RegsOk
     (cnd : Option (Str × Nat)) (op : QOp) (fl : List FlatOp)
     (hop : isOp (match cnd with | none => Stmt.qop op | some (c, k) => Stmt.ifc c k op) = true)
     (h : flattenQOp env cnd op = .ok fl)
-    (hcv : ∀ cond, condOf env cnd = .ok cond → cvBad (ccOf cond) (cvOf cond) = false) :
+    (hcv : ∀ cond, condOf env cnd = .ok cond → CondWf cond) :
     ∀ f ∈ fl, FlatWf env.qregs.total f := by
   intro f hf
   cases op with
@@ -221,7 +223,7 @@ theorem flattenStmt_wf {env env' : Env} (hg : env.gates = qelib1.reverse) (hq : 
     | ok fl' =>
       simp only [hqo, Except.ok.injEq, Prod.mk.injEq] at h
       obtain ⟨_, rfl⟩ := h
-      exact flattenQOp_wf hg hq none op fl' hop hqo cvBad_none
+      exact flattenQOp_wf hg hq none op fl' hop hqo (fun cond hc => Or.inr (cvBad_none cond hc).2)
   | ifc c k op =>
     simp only [flattenStmt, bind, Except.bind] at h
     cases hqo : flattenQOp env (some (c, k)) op with
@@ -229,7 +231,20 @@ theorem flattenStmt_wf {env env' : Env} (hg : env.gates = qelib1.reverse) (hq : 
     | ok fl' =>
       simp only [hqo, Except.ok.injEq, Prod.mk.injEq] at h
       obtain ⟨_, rfl⟩ := h
-      exact flattenQOp_wf hg hq (some (c, k)) op fl' hop hqo (cvBad_some hk)
+      refine flattenQOp_wf hg hq (some (c, k)) op fl' hop hqo (fun cond hc => ?_)
+      simp only [condOf] at hc
+      cases hfe : env.cregs.find? c with
+      | none => simp [hfe] at hc
+      | some v =>
+        obtain ⟨s0, n⟩ := v
+        simp only [hfe, Except.ok.injEq] at hc
+        subst hc
+        by_cases hs : condSkipped n k = true
+        · left
+          simpa [condUnsat] using hs
+        · right
+          have hs' : condSkipped n k = false := by simpa using hs
+          exact (cvBad_some hfe (cond_fits hfe hk hs') hs' _ (by simp [condOf, hfe])).2
   | barrier qs =>
     simp only [flattenStmt, bind, Except.bind] at h
     cases hra : resolveArgs env.qregs qs with
@@ -316,7 +331,7 @@ theorem flatten_wf (p : Program) (hw : W0 p) (env : Env) (fl : List FlatOp)
   obtain ⟨e2, o4, o5, h4, h5, rfl⟩ := flattenFrom_append_inv h3
   obtain ⟨hrq, hgt⟩ := decls_regsOk decls _ e2 o4 hd regsOk_empty h4
   obtain ⟨_, _, _, hfl, _⟩ := decls_rel decls {} _ e2 o4 hd
-    ⟨fun _ => rfl, fun _ => rfl, rfl, rfl, fun r s n hh => by simp [Regs.find?] at hh, rfl, rfl⟩ h4
+    ⟨fun _ => rfl, fun _ => rfl, rfl, rfl, fun _ r s n hh => by simp [Regs.find?] at hh, rfl, rfl⟩ h4
   subst hfl
   have hee : env = e2 := flattenFrom_ops_env ops e2 env o5 ho h5
   subst hee
